@@ -35,6 +35,7 @@ fn note_time(events: &[Event], text: &str) -> Option<Us> {
 }
 
 pub fn check(rep: &mut CaseReport, events: &[Event], cfg: &LifeCfg, out: Option<&LifeOutcome>, case_seed: u64, end_time: Us, lossy: bool) {
+
     let lives = vsock_lives(events);
     let (sa, pa) = (subject_addr(), peer_addr());
     let teardown = note_time(events, "teardown").unwrap_or(end_time);
